@@ -369,6 +369,16 @@ pub fn frames_for(cookies: &HashMap<crate::model::FlowKey, u32>, thorough: bool)
             v.push((format!("echo-{}-bytes-{}", n, v6), vec![], flow(v6, 1, 1).icmp_echo(7, 9, &data)));
         }
     }
+    // ND-NS sent to the solicited-node group / all-nodes (destination != target)
+    for (n, dip, dmac) in [("ns-solicited-node", Ip::parse("ff02::1:ff00:1"), [0x33u8, 0x33, 0xff, 0, 0, 1]), ("ns-all-nodes", Ip::parse("ff02::1"), [0x33, 0x33, 0, 0, 0, 1])] {
+        v.push((n.to_string(), vec![], eth(&dmac, &MAC_CLI, ET_IP6, &nd_ns(&cli6(), &dip, &srv6(), &slla(&MAC_CLI), 0))));
+        v.push((format!("{}-echo", n), vec![], eth(&dmac, &MAC_CLI, ET_IP6, &{
+            let mut f = flow6(1, 1);
+            f.sip = dip;
+            let fr = f.icmp_echo(1, 1, b"x");
+            fr[14..].to_vec()
+        })));
+    }
     // ND-NS: foreign target, non-zero code
     for (n, tgt, code) in [("ns-foreign", Ip::parse("2001:db8::77"), 0u8), ("ns-code1", srv6(), 1), ("ns-ok", srv6(), 0)] {
         v.push((n.to_string(), vec![], eth(&crate::driver::MAC_SRV, &MAC_CLI, ET_IP6, &nd_ns(&cli6(), &srv6(), &tgt, &slla(&MAC_CLI), code))));
